@@ -274,7 +274,7 @@ func TestVerifC19(t *testing.T) {
 
 	env := vfNewEnv()
 
-	depth := vlib.Pick(r, 5, 7)
+	depth := vlib.Pick(r, 5, 6)
 	maxblocks := vlib.Pick(r, 4, 5)
 	shareddepth := vlib.Pick(r, 4, 5)
 
